@@ -88,6 +88,13 @@ class PacketLog:
         logging.disable(logging.NOTSET)
         set_pkt_logging(self.logger, file_name=self.file)
 
+    def reconfigure(self) -> None:
+        """the packet log is configured again for the same file, as a second Gateway(..., packet_log=...) in the same
+        process does (a restart / reload)"""
+        from ramses_tx.logger import set_pkt_logging
+
+        set_pkt_logging(self.logger, file_name=self.file)
+
     def close(self) -> list[str]:
         for h in list(self.logger.handlers):
             h.flush()
